@@ -384,7 +384,7 @@ def enum_exprs(depth):
 
 
 # \u0441 \u0442 \u0141: code points whose LOW BYTE is an ASCII capital (0x41 0x42 0x41): case folding must look at the whole code point
-LETTERS = ['a', 'b', 'c', 'x', 'A', 'B', 'é', 'É', 'ب', '中', '_', '1', ' ', '-', '.', '*', '\u0441', '\u0442', '\u0141']
+LETTERS = ['a', 'b', 'c', 'x', 'A', 'B', 'é', 'É', 'ب', '中', '_', '1', ' ', '-', '.', '*', '\u0441', '\u0442', '\u0141', '\U0001f600', '\U0001f601']      # (the last two: four-byte characters that differ in their last byte only)
 
 
 def rand_ast(R, depth=3, alphabet=None):
